@@ -228,7 +228,7 @@ def near_tie(x_block, D, patch_len, n_lead=1, rel=1e-3):
 
 
 # ---- ConvContract configurations (C06 / C11) -------------------------------------------------
-def gen_layer_cfg(rng, D, equivariant_domain=True, allow_stride=False, group="B"):
+def gen_layer_cfg(rng, D, equivariant_domain=True, allow_stride=False, group="B", equal_channels=False):
     """A random ConvContract configuration (JSON-able) inside the documented domain."""
     from .ref import conv as rconv
 
@@ -243,6 +243,9 @@ def gen_layer_cfg(rng, D, equivariant_domain=True, allow_stride=False, group="B"
         outs = [pool[i] for i in rng.choice(len(pool), size=min(n_out, len(pool)), replace=False)]
         cin = rng.permutation([1, 2, 3, 4])[: len(ins)]
         cout = rng.permutation([1, 2, 3, 4])[: len(outs)]
+        if equal_channels:  # the common real-world case: every input type c channels, every target type c' channels
+            cin = [int(cin[0])] * len(ins)
+            cout = [int(cout[0])] * len(outs)
         in_sig = [[list(t), int(c)] for t, c in zip(ins, cin)]
         out_sig = [[list(t), int(c)] for t, c in zip(outs, cout)]
         ks = list(range(0, 2 * kmax_t + 1))
